@@ -383,8 +383,8 @@ func part(line, comp string) string {
 
 func runC17(c *explore.Ctx) {
 	k := c.Pick(1, 2)
-	s := c.Sub("permute-split", fmt.Sprintf("every type system = base (3 blocks) + ≤ %d of %d menu items (valid and faulty), (quick: plus every pair of extension items, every extension × described-definition pair and every directive declaration × item using that directive; every two-source layout of the canonical order and its mirror also in both source orders with either source flagged built-in) under every permutation of its units and every cut of the permuted sequence into 1–3 named sources", k, len(gen.KitMenu)),
-		"loads ⇔ the canonical order loads; the loaded schemas have equal canonical dumps; a load error names a source that holds a definition involved in a broken rule", "orderings that load")
+	s := c.Sub("permute-split", fmt.Sprintf("every type system = base (3 blocks) + ≤ %d of %d menu items (valid and faulty), (quick: plus every pair of extension items, every extension × described-definition pair, every implements-only item × input object, every directive declaration × item using that directive; every two-source layout of the canonical order and its mirror also in both source orders with either source flagged built-in) under every permutation of its units and every cut of the permuted sequence into 1–3 named sources", k, len(gen.KitMenu)),
+		"(both tiers: plus 3 item triples — two union extensions, one with an undefined member, and an implementer narrowing to the defined member — under all 720 orders) loads ⇔ the canonical order loads; the loaded schemas have equal canonical dumps; a load error names a source that holds a definition involved in a broken rule", "orderings that load")
 	if s == nil {
 		return
 	}
@@ -426,6 +426,17 @@ func runC17(c *explore.Ctx) {
 				}
 			}
 		}
+		// … and every definition or extension that ends with its implements clause with every input object definition
+		for i, it := range gen.KitMenu {
+			if !strings.Contains(it, " implements ") || strings.ContainsAny(it, "{@") {
+				continue
+			}
+			for j, other := range gen.KitMenu {
+				if strings.HasPrefix(other, "input ") {
+					pairs = append(pairs, [2]int{i, j})
+				}
+			}
+		}
 		for _, pr := range pairs {
 			{
 				idx++
@@ -457,6 +468,29 @@ func runC17(c *explore.Ctx) {
 				})
 			}
 		}
+	}
+	// three items that only matter together: a union that gets an undefined and a defined member through two
+	// extensions, and an implementer (in a file of its own) that narrows an interface field to the defined member
+	for _, tr := range c17Triples() {
+		idx++
+		if idx%c.NShards != c.Shard || c.Expired() {
+			continue
+		}
+		cn := c17Canonical(tr)
+		s.States++
+		explore.Perms(6, func(p []int) {
+			perm := append([]int{}, p...)
+			c17Case(c, s, c17Input{tr, perm, nil}, cn)
+			s.Transitions++
+			for x := 1; x < 6; x++ {
+				c17Case(c, s, c17Input{tr, perm, []int{x}}, cn)
+				s.Transitions++
+				for y := x + 1; y < 6; y++ {
+					c17Case(c, s, c17Input{tr, perm, []int{x, y}}, cn)
+					s.Transitions++
+				}
+			}
+		})
 	}
 	explore.Subsets(len(gen.KitMenu), k, func(items []int) {
 		idx++
@@ -502,4 +536,27 @@ func c17Monotone(p []int) bool {
 		}
 	}
 	return asc || desc
+}
+
+// c17Triples: item triples (sorted menu indexes) explored under every permutation and layout.
+func c17Triples() [][]int {
+	find := func(text string) int {
+		for i, it := range gen.KitMenu {
+			if it == text {
+				return i
+			}
+		}
+		panic("C17: no menu item " + text)
+	}
+	var out [][]int
+	for _, tr := range [][]string{
+		{"extend union Result = Extra2", "extend union Result = Spare", "type AR implements HasResult { r: Spare }"},
+		{"extend union Result = Kind", "extend union Result = Spare", "type AR implements HasResult { r: Spare }"},
+		{"extend type Spare implements HasS", "input P10 { ok: [[Kind!]!]! = [[DOG]] d: [Date] }", "extend union Result = Spare"},
+	} {
+		its := []int{find(tr[0]), find(tr[1]), find(tr[2])}
+		sort.Ints(its)
+		out = append(out, its)
+	}
+	return out
 }
